@@ -118,19 +118,19 @@ Qed.
 
 Example sha512_empty :
   sha512 [] = hexs "cf83e1357eefb8bdf1542850d66d8007d620e4050b5715dc83f4a921d36ce9ce47d0d13c5d85f2b0ff8318d2877eec2f63b931bd47417a81a538327af927da3e".
-Proof. vm_compute. reflexivity. Qed.
+Proof. vm_check. Qed.
 
 Example sha512_abc :
   sha512 (str "abc") = hexs "ddaf35a193617abacc417349ae20413112e6fa4e89a97ea20a9eeee64b55d39a2192992a274fc1a836ba3c23a3feebbd454d4423643ce80e2a9ac94fa54ca49f".
-Proof. vm_compute. reflexivity. Qed.
+Proof. vm_check. Qed.
 
 (* padding boundary: 111, 112 and 128 bytes of 'a' *)
 Example sha512_111a :
   sha512 (repeat 97 111) = hexs "fa9121c7b32b9e01733d034cfc78cbf67f926c7ed83e82200ef86818196921760b4beff48404df811b953828274461673c68d04e297b0eb7b2b4d60fc6b566a2".
-Proof. vm_compute. reflexivity. Qed.
+Proof. vm_check. Qed.
 Example sha512_112a :
   sha512 (repeat 97 112) = hexs "c01d080efd492776a1c43bd23dd99d0a2e626d481e16782e75d54c2503b5dc32bd05f0f1ba33e568b88fd2d970929b719ecbb152f58f130a407c8830604b70ca".
-Proof. vm_compute. reflexivity. Qed.
+Proof. vm_check. Qed.
 Example sha512_128a :
   sha512 (repeat 97 128) = hexs "b73d1929aa615934e61a871596b3f3b33359f42b8175602e89f7e06e5f658a243667807ed300314b95cacdd579f3e33abdfbe351909519a846d465c59582f321".
-Proof. vm_compute. reflexivity. Qed.
+Proof. vm_check. Qed.
